@@ -6,6 +6,7 @@ package memberlist
 // at build time by /verif/bin/check; never written into /repo).
 
 import (
+	"runtime"
 	"container/heap"
 	"fmt"
 	"hash/fnv"
@@ -137,8 +138,14 @@ type Sim struct {
 
 	direct atomic.Int32 // >0: driver is calling library code directly; yields pass through
 
+	// goroutine -> node binding: a yield site that has no Memberlist at hand (the per-key
+	// decrypt loop) takes its node from the last named site / transport call of the same
+	// goroutine, so that two nodes decrypting at the same instant get distinct stable ids
+	goNode sync.Map // goid (uint64) -> node name
+
 	yieldAll   bool
 	yieldSites map[string]bool // active sites when !yieldAll
+	bindOn     bool            // goroutine->node binding wanted (set once yield sites are configured)
 
 	Steps    int
 	MaxSteps int
@@ -199,10 +206,40 @@ func (s *Sim) siteActive(site string) bool {
 	return s.yieldSites[site]
 }
 
+// curGoid parses the id of the calling goroutine from its stack header.
+func curGoid() uint64 {
+	var buf [40]byte
+	n := runtime.Stack(buf[:], false)
+	// "goroutine 123 ["
+	var id uint64
+	for i := len("goroutine "); i < n; i++ {
+		c := buf[i]
+		if c < '0' || c > '9' {
+			break
+		}
+		id = id*10 + uint64(c-'0')
+	}
+	return id
+}
+
+// bindGoroutine records that the calling goroutine works for node.
+func (s *Sim) bindGoroutine(node string) {
+	if node != "" && s.bindOn {
+		s.goNode.Store(curGoid(), node)
+	}
+}
+
 // yield parks the calling goroutine until the driver releases it.
 func (s *Sim) yield(site, node string) {
 	if s.direct.Load() > 0 {
 		return
+	}
+	if s.bindOn {
+		if node != "" {
+			s.goNode.Store(curGoid(), node)
+		} else if v, ok := s.goNode.Load(curGoid()); ok {
+			node = v.(string)
+		}
 	}
 	if !s.siteActive(site) {
 		return
